@@ -197,6 +197,7 @@ func main() {
 			os.Exit(2)
 		}
 		fileCrashRuns(*seed, *n, *scratch, self, enc)
+		fileTreeRuns(*seed, *n*3, *scratch, self, enc)
 	case "filechild":
 		fileChild(*dir, *name, *size, *pseed, *limit, *mode)
 	default:
